@@ -42,6 +42,26 @@ CHECKS['C06'] = dict(
          'Floating-point rounding is not decided.',
     design='4/C06', engine='sa.sx + sa.spec.si')
 
+CHECKS['C19'] = dict(
+    technique='constructor-guard dominance: symbolic evaluation of all quantity constructors, operators (780 triples, '
+              'constructor guards inlined), abs/neg/to() and component constructors; who-may-write census of the private '
+              'value fields; IEEE-aware sign domain for the in-place store; sign-lattice implication of guards',
+    text='Necessary structural condition decided for every path: no sign-constrained quantity is created or mutated '
+         'without the constructor\'s sign check of exactly the stored/constructed term dominating it, no operator path '
+         'returns None, no writer of the private fields exists outside __init__/to(), and every required component '
+         'parameter rejection dominates completion of construction. NaN/inf corner cases are not decided.',
+    design='4/C19', engine='sa.sx + sa.facts')
+
+CHECKS['C09'] = dict(
+    technique='gated value numbering of the force/bending/contact methods and gear constructors to canonical terms '
+              'matched per mating role against specification terms; exhaustive truth tables of the computable flags; '
+              'AST check of the interp1d call shape; row-by-row comparison of the two CSV tables with reference tables',
+    text='Decides the code shape of every gear formula named by the property for all parameter values over the reals '
+         '(force by role, Lewis bending incl. helical virtual teeth and worm-wheel normal-pitch form, Hertz contact by '
+         'role), the ValueError exits under missing mate data, the three flags as exhaustive truth tables, linear clamped '
+         'interpolation of the Lewis table and the table contents. Numeric output of scipy is not decided.',
+    design='4/C09', engine='sa.sx + sa.match + sa.facts')
+
 NOT_APPLICABLE = {
     'C04': 'limit statement (error = O(dt) as dt -> 0) against an analytic oracle; no sound static argument in reach '
            'bounds a global discretisation error. Its code-shape ingredients (consistent first-order integrator, torque '
